@@ -8,7 +8,7 @@ PID = "C24"
 RULE = ("One generated matrix program per run: for every intrinsic operator x overload (number / unsigned / float / symbol) a rule "
         "`res(a,b,op(a,b)) :- args(a,b).`, for every comparison / match / contains constraint a rule copying the argument tuple iff the "
         "constraint holds, and for every conversion (to_number / to_unsigned / to_float / to_string in all directions) a rule applying "
-        "it; argument relations are generated .facts files mixing per-type boundary pools (0, +-1, min, max, min+1, max-1, powers of "
+        "it; plus comparisons ACROSS two relations for number / unsigned / float (`xl(a), xr(b), b OP a` for < <= > >= and two bounds of one direction on one attribute -- the shapes index selection turns into range queries; floats with -0.0 on one side and +0.0 on the other); argument relations are generated .facts files mixing per-type boundary pools (0, +-1, min, max, min+1, max-1, powers of "
         "two +-1, shift counts 0/31/32/33/-1, +-0.0-free float grid and large/small magnitudes, empty string, regex metacharacters, "
         "non-ASCII bytes) with seeded random values. The independent reference table `refops` (documented C-like semantics: wrap-around "
         "unsigned, truncating division, masked shifts, IEEE single floats, byte strings) filters argument tuples outside an operator's "
@@ -235,7 +235,62 @@ def build(seed, per_cell):
             lines.append(".decl r_%s(%s)" % (c["id"], ", ".join("x%d:%s" % (i, tmap[t]) for i, t in enumerate(c["args"]))))
             lines.append(".output r_%s" % c["id"])
             lines.append("r_%s(%s) :- a_%s(%s), %s." % (c["id"], ", ".join(vs), c["id"], ", ".join(vs), expr))
+    xl, xf, xe = build_cross(rng)
+    lines += xl
+    facts.update(xf)
+    stats["__cross__"] = xe
     return C, "\n".join(lines) + "\n", facts, expected, stats
+
+
+CROSS_OPS = {"lt": ("<", lambda a, b: a < b), "le": ("<=", lambda a, b: a <= b), "gt": (">", lambda a, b: a > b), "ge": (">=", lambda a, b: a >= b)}
+
+
+def build_cross(rng):
+    """comparisons ACROSS two relations (the shape that index selection turns into range queries), incl. two bounds on one
+    attribute, for number / unsigned / float. The float lists carry -0.0 on the left and +0.0 on the right only (never both signs in
+    one relation: the identity of the two zeros inside one relation is recorded finding F27 of C02), and `=` / `!=` are left to the
+    per-tuple cells for the same reason."""
+    lines, facts, expected = [], {}, {}
+    pools = {
+        "number": ([0, -1, 1, I32_MIN, I32_MAX, 5, -7], [0, 1, -1, I32_MAX, I32_MIN + 1, 6, -7]),
+        "unsigned": ([0, 1, 5, (1 << 31) - 1, 1 << 31, 3000000000, U32_MAX], [0, 2, 5, 1 << 31, (1 << 31) + 1, 3500000000, U32_MAX - 1]),
+        "float": ([-0.0, -1.0, 1.5, -2.5e-10, 3.0e38, -3.0e38], [0.0, 1.0, 1.5, 2.5e-10, -1.5, 3.0e38]),
+    }
+    for ty, (left, right) in pools.items():
+        left = list(left) + gen_vals(rng, ty, 2)
+        right = list(right) + gen_vals(rng, ty, 2)
+        if ty == "float":
+            left = [f32(v) for v in left if not (v == 0 and str(v)[0] != "-")]
+            right = [f32(v) for v in right if not (v == 0 and str(v)[0] == "-")]
+        left, right = sorted(set(left)), sorted(set(right))
+        t = ty[0]
+        lines += [".decl xl_%s(a:%s)" % (t, ty), ".input xl_%s" % t, ".decl xr_%s(b:%s)" % (t, ty), ".input xr_%s" % t]
+        facts["xl_%s.facts" % t] = "".join(fmt_fact(v, ty) + "\n" for v in left)
+        facts["xr_%s.facts" % t] = "".join(fmt_fact(v, ty) + "\n" for v in right)
+        for name, (sym, fn) in CROSS_OPS.items():
+            rel = "xc_%s_%s" % (t, name)
+            lines += [".decl %s(a:%s, b:%s)" % (rel, ty, ty), ".output %s" % rel, "%s(a, b) :- xl_%s(a), xr_%s(b), b %s a." % (rel, t, t, sym)]
+            expected[rel] = (ty, {(a, b) for a in left for b in right if fn(b, a)})
+        # two bounds of the same direction on one attribute
+        for name, (sym, fn) in (("ge2", CROSS_OPS["ge"]), ("le2", CROSS_OPS["le"])):
+            rel = "xd_%s_%s" % (t, name)
+            lines += [".decl %s(a:%s, c:%s, b:%s)" % (rel, ty, ty, ty), ".output %s" % rel,
+                      "%s(a, c, b) :- xl_%s(a), xl_%s(c), xr_%s(b), b %s a, b %s c." % (rel, t, t, t, sym, sym)]
+            expected[rel] = (ty, {(a, c, b) for a in left for c in left for b in right if fn(b, a) and fn(b, c)})
+    return lines, facts, expected
+
+
+def judge_cross(expected, outs, label):
+    msgs = []
+    for rel, (ty, want) in sorted(expected.items()):
+        lines = outs.get(rel)
+        if lines is None:
+            msgs.append("%s: %s: no output" % (label, rel))
+            continue
+        got = {tuple(parse_val(x, ty) for x in ln.split("\t")) for ln in lines}
+        if got != want:
+            msgs.append("%s: cross-relation comparison %s: missing %r spurious %r" % (label, rel, sorted(want - got)[:4], sorted(got - want)[:4]))
+    return msgs
 
 
 def run_mode(d, mode, timeout):
@@ -300,6 +355,10 @@ def run_matrix(seed, per_cell, compiled, st):
         if rr.rc != 0:
             raise Violation("interpreter failed on the matrix program (every argument tuple is inside the defined domain): rc=%s\n%s" % (rr.rc, rr.err[-1500:]), {"case": case})
         msgs = judge_outputs(C, expected, outs_i, "interpreter", st, True)
+        cross = gstats.pop("__cross__")
+        msgs += judge_cross(cross, outs_i, "interpreter")
+        if st is not None:
+            st.classes["cross_relation_comparison_pairs"] += sum(len(w) for _, w in cross.values())
         if compiled:
             rr, outs_c = run_mode(d, "compiled", 1500)
             if rr.timeout:
@@ -309,6 +368,7 @@ def run_matrix(seed, per_cell, compiled, st):
                 raise Violation("compiled run of the matrix program failed: rc=%s\n%s" % (rr.rc, (rr.err or rr.out)[-1500:]), {"case": case})
             else:
                 msgs += judge_outputs(C, expected, outs_c, "compiled", st, False)
+                msgs += judge_cross(cross, outs_c, "compiled")
                 # exact agreement of the two back ends, also where the reference is only approximate
                 for c in C:
                     a, b = outs_i.get("r_" + c["id"]), outs_c.get("r_" + c["id"])
